@@ -364,8 +364,15 @@ pub fn worker(a: WorkerArgs) -> i32 {
             }
         }
         if let Some(v) = r.violation {
+            // once the heap has been damaged (overflow, write after free, bad free) nothing this process
+            // does afterwards can be trusted: report and stop, later runs would only show symptoms
+            let heap_damaged = v.class.starts_with("heap/") && !v.class.starts_with("heap/leak");
             if classes_seen.insert(v.class.clone()) || res.violations.len() < 2 {
                 res.violations.push(FoundViolation { run: run as i64, class: v.class, detail: v.detail, choices: r.choices });
+            }
+            if heap_damaged {
+                res.stopped_early = true;
+                break;
             }
             if res.violations.len() >= a.max_violations {
                 res.stopped_early = true;
